@@ -84,7 +84,7 @@ func stripAttrPrefix(l string) string {
 	return l
 }
 
-func collectVocab(s *traceql_parser.TraceQLScript) tqVocab {
+func tqCollectVocab(s *traceql_parser.TraceQLScript) tqVocab {
 	v := tqVocab{keys: []string{"other"}, strs: []string{"zzz"}, nums: []string{"0", "7", "-3", "2.5"}, durs: []int64{1, 1000, 1500000000}}
 	var walk func(e *traceql_parser.AttrSelectorExp)
 	walk = func(e *traceql_parser.AttrSelectorExp) {
@@ -252,7 +252,7 @@ func c11Sem(r *h.Rng, res *h.Result, n int, maxSel int, replay *tqReplay) error 
 			return false // `{}`: outside the semantic fragment
 		}
 		if rows == nil {
-			rows = genTraceDb(r, c, collectVocab(script))
+			rows = genTraceDb(r, c, tqCollectVocab(script))
 		}
 		realOp := ""
 		if ig := indexGroupedOf(sel); ig != nil {
